@@ -131,7 +131,7 @@ func c20Run(c *Ctx, idx int, rng *rand.Rand, sc *c20Scenario, dir string) {
 		synctest.Wait()
 	}
 
-	states := []string{"in-progress", "new-version", "held", "full-stalled", "orphan-cmp", "dup-of-delivered", "stray-delivered", "stray-unknown", "delivered"}
+	states := []string{"in-progress", "new-version", "held", "full-stalled", "orphan-cmp", "dup-of-delivered", "stray-delivered", "stray-unknown", "delivered", "resend-after-failed"}
 	ages := []float64{0.5, 23.9, 24.1, 30, 80}
 	nitems := 2 + rng.Intn(6)
 	for k := 0; k < nitems; k++ {
@@ -153,6 +153,23 @@ func c20Run(c *Ctx, idx int, rng *rand.Rand, sc *c20Scenario, dir string) {
 		case "new-version":
 			it.old = randBytes(rng, it.Size)
 			deliverWhole(it, it.old)
+			it.tiles = tile(it.Size, 2+rng.Intn(4))
+			it.got = make([]bool, len(it.tiles))
+			nrecv := 1 + rng.Intn(len(it.tiles)-1)
+			for _, ti := range rng.Perm(len(it.tiles))[:nrecv] {
+				_ = sendPart(it, it.data, it.hash, "", it.tiles[ti])
+				it.got[ti] = true
+			}
+			it.Parts = nrecv
+		case "resend-after-failed":
+			// received completely but damaged in transit: validation fails; the sender
+			// sends the same version again and stalls after some parts
+			bad := append([]byte{}, it.data...)
+			bad[rng.Intn(len(bad))] ^= 0x17
+			_ = sendPart(it, bad, it.hash, "", iv{0, it.Size})
+			synctest.Wait()
+			time.Sleep(3 * time.Second)
+			synctest.Wait()
 			it.tiles = tile(it.Size, 2+rng.Intn(4))
 			it.got = make([]bool, len(it.tiles))
 			nrecv := 1 + rng.Intn(len(it.tiles)-1)
@@ -275,7 +292,7 @@ func c20Run(c *Ctx, idx int, rng *rand.Rand, sc *c20Scenario, dir string) {
 	// what the receiver reports as held before the cleaning (per acknowledged part)
 	heldBefore := map[string]bool{}
 	for _, it := range sc.Items {
-		if it.State != "in-progress" && it.State != "new-version" {
+		if it.State != "in-progress" && it.State != "new-version" && it.State != "resend-after-failed" {
 			continue
 		}
 		for ti, t := range it.tiles {
@@ -346,13 +363,16 @@ func c20Run(c *Ctx, idx int, rng *rand.Rand, sc *c20Scenario, dir string) {
 				if it.State == "new-version" {
 					fp = "removed-partial-of-new-version-of-delivered-name"
 				}
+				if it.State == "resend-after-failed" {
+					fp = "removed-partial-of-retransmission-after-failed-validation"
+				}
 				viol("removed-only-if-delivered", fp, fmt.Sprintf("cleaning removed %s (state %s, age %.1f h, companion hash %q) although (name, that hash) was never delivered or logged", rel, it.State, it.AgeH, h))
 			}
 		}
 	}
 	for _, it := range sc.Items {
 		switch it.State {
-		case "in-progress", "new-version", "held", "full-stalled":
+		case "in-progress", "new-version", "held", "full-stalled", "resend-after-failed":
 			protected++
 		case "dup-of-delivered", "stray-delivered", "orphan-cmp", "stray-unknown":
 			strays++
@@ -393,7 +413,7 @@ func c20Run(c *Ctx, idx int, rng *rand.Rand, sc *c20Scenario, dir string) {
 
 	// ---- resume the paused transfers: completion without retransmission
 	for _, it := range sc.Items {
-		if it.State != "in-progress" && it.State != "new-version" {
+		if it.State != "in-progress" && it.State != "new-version" && it.State != "resend-after-failed" {
 			continue
 		}
 		var ask []sts.Binned
